@@ -18,7 +18,8 @@ import c10_ref as R
 ID = "C10"
 RULE = ("cases = chain of 1..3 classes (attrs: slots x frozen x cache_hash x weakref_slot x getstate_setstate{None,T,F} x "
         "auto_detect x own __getstate__/__setstate__ x eq x unsafe_hash x collect_by_mro x 0..3 own fields (init or "
-        "init=False, int/str/mutable-box valued -- int-valued fields hold, with probability 0.4, an unusual value instead: attr.NOTHING, None, "
+        "init=False, written through attr.s / attrs.define / attrs.frozen class statements, attr.s(these=...) or attr.make_class(...) called from the "
+        "synthetic module's own code (classes are exec'd inside the module, a quarter of them nested in a namespace class: __module__/__qualname__ arise as for a user), int/str/mutable-box valued -- int-valued fields hold, with probability 0.4, an unusual value instead: attr.NOTHING, None, "
         "NotImplemented, Ellipsis, False, 0, '', (), NaN, an int subclass, the cache field's name as a string, an instance of the same "
         "class (harness-only variation: the model sees opaque tokens) --, names shared between classes so fields are inherited and re-declared); "
         "plain classes without / with empty / with named __slots__) x operation (copy, deepcopy, pickle protocol 0..5 "
@@ -58,11 +59,11 @@ def plain_cls(slots=False, plain_slots=(), user_gs=False):
 
 def attrs_cls(fields, slots=False, frozen=False, cache=False, weakref=True, gs="none", auto_detect=False,
               user_gs=False, eq=True, unsafe_hash=False, by_mro=False, api="attr.s", explicit=True,
-              gs_explicit_none=False, hash_kw="unsafe_hash"):
+              gs_explicit_none=False, hash_kw="unsafe_hash", front="class"):
     return {"kind": "attrs", "slots": slots, "plainSlots": [], "frozen": frozen, "cacheHash": cache,
             "weakrefSlot": weakref, "gs": gs, "autoDetect": auto_detect, "userGS": user_gs, "eq": eq,
             "unsafeHash": unsafe_hash, "collectByMro": by_mro, "fields": fields,
-            "api": api, "explicit": explicit, "gsExplicitNone": gs_explicit_none, "hashKw": hash_kw}
+            "api": api, "explicit": explicit, "gsExplicitNone": gs_explicit_none, "hashKw": hash_kw, "front": front}
 
 
 SPECIALS = sorted(B.SPECIALS)
@@ -96,7 +97,24 @@ def _settle_specials(chain, op, rng):
     return [dict(c, fields=[dict(f, special="none") if f.get("special") == "nan" else f for f in c["fields"]]) for c in chain]
 
 
+def vary_front(c, rng):
+    """harness-only: which front-end writes the class -- a decorated class statement (attr.s / define / frozen),
+    `attr.s(these=...)`, or `attr.make_class(...)` called from the synthetic module's own code"""
+    if c["kind"] != "attrs":
+        return c
+    if c["api"] == "attr.s":
+        c["front"] = rng.choice(["class", "class", "these", "make_class", "make_class"])
+    elif c["api"] == "define" and c["frozen"] and rng.random() < 0.5:
+        c["api"] = "frozen"
+    c["nested"] = rng.random() < 0.25        # class statement inside a namespace class: dotted __qualname__
+    return c
+
+
 def rand_attrs_cls(rng, pool=NAMES):
+    return vary_front(_rand_attrs_cls(rng, pool), rng)
+
+
+def _rand_attrs_cls(rng, pool=NAMES):
     api = rng.choice(["attr.s", "attr.s", "define"])
     return attrs_cls(
         _fields(rng, rng.choice([0, 1, 1, 2, 2, 3]), pool),
@@ -222,6 +240,7 @@ def gen_cases(tier, rng):
     for chain in singles:
         for c in chain:
             add_specials(c["fields"], rng, 0.5)
+            vary_front(c, rng)
         yield from cases_for_chain(chain, rng, full)
     for rep in range(5 if not full else 40):
         for chain in shaped_chains(rng):
@@ -254,14 +273,14 @@ def dist(case, obs):
         "leaf": ("frozen " if R.eff_frozen(chain) else "") + ("slots" if leaf["slots"] else "dict") + " gs=" + leaf["gs"],
         "exc": obs.get("exc") if isinstance(obs, dict) else "?",
         "cacheAfter": obs.get("cacheAfter") if isinstance(obs, dict) else "?",
-        "api": leaf.get("api"),
+        "front_end": leaf.get("api") + ("/" + leaf["front"] if leaf.get("front", "class") != "class" else "") + ("/nested" if leaf.get("nested") else ""),
         "unusual_values": ",".join(sorted({f["special"] for f in B.leaf_fields(chain) if f.get("special")})) or "-",
     }
 
 
 _DEFAULT_ATTRS = dict(slots=False, frozen=False, cacheHash=False, weakrefSlot=True, gs="none", autoDetect=False,
                       userGS=False, eq=True, unsafeHash=False, collectByMro=False, api="attr.s", explicit=True,
-                      gsExplicitNone=False, hashKw="unsafe_hash")
+                      gsExplicitNone=False, hashKw="unsafe_hash", front="class", nested=False)
 
 
 def _variants(case):
@@ -343,5 +362,5 @@ LEVEL_TEXT = (
     "for K1, K2, K5, K10b, K11 plus regression theorems for the repaired K4, K10a, K10c. Proved about the model; the model is tied to /repo by a differential correspondence over "
     "chains of <= 3 classes x operations x histories (see rule). Observed, not proved: CPython's object.__reduce_ex__/copyreg/copy/pickle "
     "fragment (modelled as small trusted functions and diff-tested with both picklers), that the result is a distinct object of the same "
-    "class, hash collisions between tokens, class creation itself. Not covered: multiple inheritance, make_class/these=, per-field "
+    "class, hash collisions between tokens, class creation itself. Not covered: multiple inheritance, per-field "
     "eq=/hash= exclusions, converters/validators/on_setattr hooks, self-referential (cyclic) instances, user state methods that are not well behaved.")
